@@ -207,6 +207,11 @@ func lifecycleOracle(prop string, c *Case, conn int, cs *connState, t *Transcrip
 				if f.prevdone == "false" {
 					add("context-not-cancelled", "the context of the previous command is still live when the next command starts")
 				}
+			case "op":
+				// the handler looks at its context again in the middle of its work
+				if f.live != "true" {
+					add("context-cancelled-early", "the context of a statement callback was cancelled while the command was still running")
+				}
 			}
 			if closeSeq > 0 && e.Seq > closeSeq && f.where != "" {
 				add("callback-after-close", "a callback ran after the server closed the connection")
@@ -374,6 +379,42 @@ func genGlobalParams(r *Rand, c *Case) {
 	}
 }
 
+// genC19Close (engine E2): Server.Close is pinned inside a running statement
+// callback, which then lets a moment of simulated time pass and looks at its
+// context again: the command has not ended, so its context is live.
+func genC19Close(r *Rand) *Case {
+	c := &Case{Variant: "close-during-command", Server: ServerCfg{Limit: 4096, Term: r.Pick("", "ok")}, Programs: map[string]*Program{}}
+	for n := r.Intn(3); n > 0; n-- {
+		c.Server.MW = append(c.Server.MW, MWSpec{})
+	}
+	col := []ColSpec{{Name: "a", OID: pgwire.OIDText}}
+	ops := []Op{{K: "yield"}, {K: "sleep", Ms: r.PickInt(1, 50, 6000)}, {K: "ctx"}, {K: "row", Row: []Val{{G: "string", S: "r"}}}, {K: "ctx"}, {K: "complete", Tag: "H"}}
+	c.Programs["h"] = &Program{Stmts: []*StmtProg{{Cols: col, Ops: ops}}}
+	msgs := []pgwire.FMsg{{K: "Q", S1: "h"}}
+	if r.Bool() {
+		msgs = []pgwire.FMsg{{K: "P", S1: "", S2: "h"}, {K: "B"}, {K: "E"}, {K: "S"}}
+	}
+	c.Conns = []ConnCase{{Steps: []Step{{Msgs: []pgwire.FMsg{startupMsg("u", "d")}}, {Msgs: msgs}}, NoEOF: true}}
+	c.Sched = &SchedCase{Strategy: r.Pick("uniform", "pct"), Depth: 1, MaxSteps: 400000, Closers: []Closer{{Calls: 1}},
+		Holds: []Hold{{Task: 2, Point: "closer.start", Until: 1, UntilPoint: "cb.stmt"}, {Task: 1, Point: "op.yield", Until: 2, UntilPoint: "close.signalled"}}}
+	return c
+}
+
+func checkC19Close(x *Exec, c *Case) ([]Violation, bool) {
+	r := x.Run(c)
+	c.Sched.Schedule = r.Schedule
+	cs := r.Conns[0]
+	t := ParseOut(cs)
+	viol := GrammarViolation("C19", 0, t)
+	if r.HoldsForced > 0 || r.Outcome != RunIdle || t.Grammar != nil || countKind(cs, "stmt") == 0 {
+		x.Probe("close_during_command_inconclusive")
+		return viol, false
+	}
+	x.Probe("close_during_command")
+	viol = append(viol, lifecycleOracle("C19", c, 0, cs, t)...)
+	return viol, true
+}
+
 // genC19Cancel: a middleware derives a cancellable session context; a
 // statement cancels it once its result is complete (a session time limit that
 // expires); the client runs one more query and then sends Terminate.
@@ -432,11 +473,14 @@ func init() {
 	// ------------------------------------------------------------------ C19
 	register(&Prop{
 		ID: "C19", Level: "exploration", QuickS: 20, ThoroughS: 300,
-		Rule:       "seeded server configurations with 0-5 session middlewares (each adds a distinct context value, any one may fail), optional terminate hook (succeeding or failing), with and without authentication, and command histories (simple and extended, errors, Terminate followed by more bytes); every middleware, parser and statement callback records the context it receives (middleware values, client and server parameters, remote address, type map, liveness, whether the previous command's context has been cancelled); judged by the event-order monitor plus the reference model (which predicts the middleware and terminate-hook events); a quarter of the sessions end abruptly instead (failing write, peer vanishing at a byte offset, read error) and the last command's context is sampled once the connection has ended; variant: a statement cancels the middleware-derived session context, one more query is answered, then Terminate must still run the hook once; non-trivial = at least one middleware is registered and at least one command callback ran, or a middleware failed, or a Terminate was sent; distinct = distinct case content hashes",
+		Rule:       "seeded server configurations with 0-5 session middlewares (each adds a distinct context value, any one may fail), optional terminate hook (succeeding or failing), with and without authentication, and command histories (simple and extended, errors, Terminate followed by more bytes); every middleware, parser and statement callback records the context it receives (middleware values, client and server parameters, remote address, type map, liveness, whether the previous command's context has been cancelled); judged by the event-order monitor plus the reference model (which predicts the middleware and terminate-hook events); a quarter of the sessions end abruptly instead (failing write, peer vanishing at a byte offset, read error) and the last command's context is sampled once the connection has ended; variant: a statement cancels the middleware-derived session context, one more query is answered, then Terminate must still run the hook once; E2 variant: Server.Close pinned inside a running statement callback that lets time pass and inspects its context again (live until the command ends); Terminate messages with surplus bytes; non-trivial = at least one middleware is registered and at least one command callback ran, or a middleware failed, or a Terminate was sent; distinct = distinct case content hashes",
 		Components: e1Components, Assumptions: commonAssumptions,
 		Gen: func(r *Rand, tier string) *Case {
 			if r.Chance(1, 25) {
 				return genC19Cancel(r)
+			}
+			if r.Chance(1, 30) {
+				return genC19Close(r)
 			}
 			c := &Case{Server: ServerCfg{Limit: smallLimit(r)}}
 			nmw := r.PickInt(0, 1, 2, 3, 5)
@@ -455,10 +499,25 @@ func init() {
 			}
 			genGlobalParams(r, c)
 			genHistory(r, c, histOpts{simple: true, extended: true, errs: true, params: r.Bool(), closes: true, terminate: true, multi: true, copy: r.Chance(1, 6), maxUnits: units(tier, 5)})
+			if r.Chance(1, 4) {
+				// a Terminate that carries bytes inside its declared length is a
+				// Terminate all the same
+				for si := range c.Conns[0].Steps {
+					for mi := range c.Conns[0].Steps[si].Msgs {
+						if m := &c.Conns[0].Steps[si].Msgs[mi]; m.K == "X" {
+							m.Tail = r.PickBytes([]byte{0}, []byte("bye\x00"), r.Bytes(r.Range(1, 8)))
+						}
+					}
+				}
+			}
 			if r.Chance(1, 3) {
 				// Terminate followed by more bytes
 				last := &c.Conns[0].Steps[len(c.Conns[0].Steps)-1]
-				last.Msgs = append(last.Msgs, pgwire.FMsg{K: "X"}, pgwire.FMsg{K: "Q", S1: "after-terminate"}, pgwire.FMsg{K: "raw", Data: r.Bytes(9)})
+				x := pgwire.FMsg{K: "X"}
+				if r.Chance(1, 4) {
+					x.Tail = r.Bytes(r.Range(1, 8))
+				}
+				last.Msgs = append(last.Msgs, x, pgwire.FMsg{K: "Q", S1: "after-terminate"}, pgwire.FMsg{K: "raw", Data: r.Bytes(9)})
 				if r.Chance(1, 3) {
 					// closing the connection reports an error (the hook runs regardless)
 					c.Conns[0].Faults = []Fault{{Kind: "close-err"}}
@@ -481,6 +540,9 @@ func init() {
 		Check: func(x *Exec, c *Case) ([]Violation, bool) {
 			if c.Variant == "terminate-after-session-cancel" {
 				return checkC19Cancel(x, c)
+			}
+			if c.Variant == "close-during-command" {
+				return checkC19Close(x, c)
 			}
 			viol, r, _ := modelCheck("C19", x, c)
 			nt := false
@@ -507,7 +569,7 @@ func init() {
 	// ------------------------------------------------------------------ C12
 	register(&Prop{
 		ID: "C12", Level: "exploration", QuickS: 25, ThoroughS: 420, Race: true,
-		Rule:        "seeded startup negotiations: startup packets with 1-8 key/value pairs (duplicates, empty values, an empty key in the middle, missing final terminator, missing value), configured global parameter maps (nil, empty, custom keys) and version strings, with and without authentication, CancelRequest as first packet / after an SSLRequest was declined; callbacks read ClientParameters, ServerParameters and AuthenticatedUsername back; E2 share: 2-5 connections of different users connect concurrently to one server sharing one user-supplied map, under seeded schedules and (race shard) under the -race build with the HB-transparent scheduler; mixed-case keys, server_version configured through the map with and without a Version string, 2-4 connections served one after the other by the same server; the GlobalParameters option given twice (both user maps compared with their copies); non-trivial = a session was established and at least one callback read the parameters back, or a cancel/malformed packet was refused; distinct = distinct case content hashes",
+		Rule:        "seeded startup negotiations: startup packets with 1-8 key/value pairs (duplicates, empty values, an empty key in the middle, missing final terminator, missing value), configured global parameter maps (nil, empty, custom keys) and version strings, with and without authentication, CancelRequest as first packet / after an SSLRequest was declined; callbacks read ClientParameters, ServerParameters and AuthenticatedUsername back; E2 share: 2-5 connections of different users connect concurrently to one server sharing one user-supplied map, under seeded schedules and (race shard) under the -race build with the HB-transparent scheduler; mixed-case keys, server_version configured through the map with and without a Version string, 2-4 connections served one after the other by the same server; the GlobalParameters option given twice (both user maps compared with their copies); sequential connections after a peer that vanished mid-reply; E2 variant: a CancelRequest on a connection accepted just before Server.Close; non-trivial = a session was established and at least one callback read the parameters back, or a cancel/malformed packet was refused; distinct = distinct case content hashes",
 		Components:  append(append([]string{}, e1Components...), "E2 share: seeded scheduler interleaves the connecting users; race shard: -race build, kernel synchronisation hidden from the detector"),
 		Assumptions: commonAssumptions,
 		Gen:         genC12,
@@ -580,9 +642,30 @@ func genC12One(r *Rand, c *Case, user string) ConnCase {
 	return ConnCase{Steps: steps, Cuts: genCuts(r)}
 }
 
+// genClosedAtAccept (engine E2): a connection is accepted, and before its
+// goroutine does anything with it Server.Close signals the shutdown; then the
+// client's first packet (first) arrives. How a negotiation is answered does
+// not depend on that.
+func genClosedAtAccept(r *Rand, variant string, srv ServerCfg, steps []Step) *Case {
+	c := &Case{Variant: variant, Server: srv, Programs: map[string]*Program{}}
+	c.Conns = []ConnCase{{Steps: steps}}
+	c.Sched = &SchedCase{Strategy: r.Pick("uniform", "pct"), Depth: 1, MaxSteps: 200000, Closers: []Closer{{Calls: 1}},
+		Holds: []Hold{{Task: 2, Point: "closer.start", Until: 0, UntilPoint: "accept"}, {Task: 1, Point: "conn.start", Until: 2, UntilPoint: r.Pick("close.signalled", "close.signalled", "closer.returned")}}}
+	return c
+}
+
 func genC12(r *Rand, tier string) *Case {
 	if r.Chance(1, 4) {
 		return genC12Concurrent(r)
+	}
+	if r.Chance(1, 30) {
+		// a CancelRequest (first packet, or behind a declined SSLRequest) on a
+		// connection that was accepted just before Close
+		steps := []Step{{Msgs: []pgwire.FMsg{{K: "cancel"}}}}
+		if r.Bool() {
+			steps = []Step{{Msgs: []pgwire.FMsg{{K: "ssl"}}}, {Msgs: []pgwire.FMsg{{K: "cancel"}}}}
+		}
+		return genClosedAtAccept(r, "cancel-while-closing", ServerCfg{Limit: 4096}, steps)
 	}
 	if r.Chance(1, 12) {
 		// CancelRequest after a successful SSL negotiation (inside TLS): decided
@@ -606,6 +689,13 @@ func genC12(r *Rand, tier string) *Case {
 		// nothing of an earlier (possibly malformed) negotiation may show up later
 		for n := r.Range(1, 3); n > 0; n-- {
 			c.Conns = append(c.Conns, genC12One(r, c, "v"+r.Ident(3)))
+		}
+		if r.Chance(1, 3) {
+			// an earlier peer vanishes in the middle of its startup reply (from
+			// some write on, its transport fails), or one write of it fails once:
+			// the connections served afterwards are none the worse for it
+			k := r.Intn(len(c.Conns) - 1)
+			c.Conns[k].Faults = []Fault{{Kind: r.Pick("write-err", "write-err", "write-err-transient"), At: r.Range(0, 7), Bytes: r.PickInt(0, 0, 3, 1000)}}
 		}
 	}
 	return c
@@ -636,6 +726,28 @@ func checkC12(x *Exec, c *Case) ([]Violation, bool) {
 			viol[i].Prop = "C12"
 		}
 		return viol, nt
+	}
+	if c.Variant == "cancel-while-closing" {
+		r := x.Run(c)
+		c.Sched.Schedule = r.Schedule
+		cs := r.Conns[0]
+		var viol []Violation
+		if r.HoldsForced > 0 || r.Accepts == 0 {
+			x.Probe("cancel_while_closing_inconclusive")
+			return nil, false
+		}
+		x.Probe("cancel_while_closing")
+		out := cs.Out
+		if cs.cc.FirstIsSSLRequest() && len(out) > 0 && out[0] == 'N' {
+			out = out[1:]
+		}
+		if len(out) != 0 {
+			viol = append(viol, Violation{Prop: "C12", Rule: "cancel-answered", Sig: "cancel-answered", Detail: fmt.Sprintf("conn 0 (accepted just before Server.Close signalled the shutdown): a CancelRequest was answered with %q", trunc(string(out), 60))})
+		}
+		if n := countKind(cs, "parse") + countKind(cs, "stmt") + countKind(cs, "validator") + countKind(cs, "mw"); n > 0 {
+			viol = append(viol, Violation{Prop: "C12", Rule: "cancel-callback", Sig: "cancel-callback", Detail: "conn 0: a CancelRequest caused callbacks: " + trunc(CallbackTrace(cs), 120)})
+		}
+		return viol, true
 	}
 	viol, r, _ := modelCheck("C12", x, c)
 	nt := false
